@@ -300,6 +300,8 @@ def gen_case(rng, tier, index):
             if rng.random() < 0.5:
                 kw["tip"] = gen_tip(rng)
             flds = ["sep:liquid_class", "sep:rack_id", "sep:tube_id", "sep:rack_type", "sep:forced_rack_type", "long:rack_id", "long:rack_type"]
+            if op == "transfer" and not wl["diti_mode"]:
+                flds += ["scheme:wash_scheme"] * 2
         if rng.random() < p_fault:
             f = rng.choice(flds)
             kind, fld = f.split(":")
@@ -310,6 +312,8 @@ def gen_case(rng, tier, index):
                 kw[fld] = val if ";" in val else ";" + val[:31]
             elif kind == "long":
                 kw[fld] = text(rng, 33, 40)[:40].ljust(33, "z")
+            elif kind == "scheme":
+                kw["wash_scheme"] = rng.choice([0, 5, 7, -1, "W1", 2.5, "rinse"])  # neither 1-4 nor 'flush' / 'reuse'
             else:
                 kw["direction"] = "sideways"
             case["faults"].append(f)
